@@ -92,6 +92,8 @@ class ReadCd(SCSICommand):
         """
         result = {}
 
+        # the optional cdb fields default to 0, as in the constructor
+        kwargs = {"est": 0, "mcsb": 0, "c2ei": 0, "scsb": 0, **kwargs}
         est = kwargs["est"]
         mcsb = kwargs["mcsb"] << 3
         # Need to remap according to MMC:
